@@ -103,4 +103,43 @@ def eval_bits(t, env, width=None):
                         out.append(None)
             return out
         raise BitsError("operator %s not modelled" % op)
+    # byte-order helpers of the integer types: x.to_be_bytes()[j], uN::from_be_bytes([b0, .., bn]) (and _le_)
+    if k == "index" and t[1][0] == "call" and isinstance(t[1][1], str) and t[2][0] == "const":
+        nm = t[1][1]
+        short = nm.split("::")[-1]
+        if short in ("to_be_bytes", "to_le_bytes", "to_ne_bytes") and len(t[1][2]) == 1:
+            it = _impl_int(nm)
+            if it is None or short == "to_ne_bytes":
+                raise BitsError("byte conversion %s not modelled" % nm)
+            x = resize(eval_bits(t[1][2][0], env), it)
+            n = it // 8
+            j = t[2][1]
+            if not (0 <= j < n):
+                raise BitsError("byte index out of range")
+            lo = 8 * (n - 1 - j) if short == "to_be_bytes" else 8 * j
+            return x[lo:lo + 8]
+    if k == "call" and isinstance(t[1], str):
+        short = t[1].split("::")[-1]
+        if short in ("from_be_bytes", "from_le_bytes") and len(t[2]) == 1 and t[2][0][0] == "agg" and t[2][0][1] == "array":
+            it = _impl_int(t[1])
+            elems = t[2][0][2]
+            if it is None or len(elems) * 8 != it:
+                raise BitsError("byte conversion %s not modelled" % t[1])
+            bs = [resize(eval_bits(e, env, 8), 8) for e in elems]
+            if short == "from_be_bytes":
+                bs = bs[::-1]
+            out = []
+            for b in bs:
+                out.extend(b)
+            return out
+        # lossless widening conversions
+        if short in ("from", "into") and len(t[2]) == 1 and ("convert::From" in t[1] or "convert::Into" in t[1] or "<impl" in t[1]):
+            return eval_bits(t[2][0], env, width)
     raise BitsError("term %s not modelled" % (k,))
+
+
+def _impl_int(name):
+    """bit width of the unsigned integer type in a path like std::num::<impl u32>::to_be_bytes"""
+    import re
+    m = re.search(r"<impl (u8|u16|u32|u64|u128)>", name)
+    return int(m.group(1)[1:]) if m else None
